@@ -10,7 +10,7 @@ LEVEL_TEXT = ("For every tree, start node, filter, stop, maxlevel, mincount and 
               "exactly the nodes whose attribute exists and equals the value. Tied to /repo through both anytree.search and "
               "anytree.cachedsearch with every keyword, bounds at 0, at the match count and beyond, nodes lacking the attribute.")
 LEVEL_NOTE = ("Trusted: Lean kernel, standard axioms; the mirror lean/Anytree/Model/Search.lean; attribute values modelled as "
-              "JSON scalars (integers and None) compared by value (user __eq__ on values is the user's); fastcache absent (with it installed the "
+              "JSON values (integers, strings, None, lists) compared by value (user __eq__ on values is the user's); fastcache absent (with it installed the "
               "cached functions memoise on argument identity - out of scope); the CountError message is canonicalised to "
               "(which bound, bound, count).")
 THEOREMS = [
@@ -26,7 +26,12 @@ THEOREMS = [
 NOT_COVERED = []
 RULE = ("all shapes up to N nodes (quick 4, thorough 5) x start nodes x query batteries: findall with stop/filter subsets and "
         "mincount/maxcount in {None,0,count-1,count,count+1}, find, *_by_attr over sparse attribute tables, through search and "
-        "cachedsearch; random shapes up to 12/30 nodes. Distinct = distinct case; non-trivial = start subtree has >= 3 nodes.")
+        "cachedsearch; half of the cases repeat every call (same predicate objects, equal values) after the tree changed in between "
+        "(attribute values rewritten, a node detached); values include unhashable lists; random shapes up to 12/30 nodes. Distinct = distinct case; non-trivial = start subtree has >= 3 nodes.")
+
+
+# attribute values: JSON scalars and (unhashable) lists, compared by value
+VALUES = [0, 1, 2, None, "s", [1, 2], []]
 
 
 def _queries(rng, t, start, attrs, n):
@@ -46,10 +51,10 @@ def _queries(rng, t, start, attrs, n):
         elif r < 0.6:
             qs.append({"fn": "find", "filter_out": fo, "stop": st, "maxlevel": m, "defaults": rng.random() < 0.3})
         elif r < 0.8:
-            qs.append({"fn": "findall_by_attr", "name": rng.choice(["x", "y", "label", "zz"]), "value": rng.choice([0, 1, 2, None, None]),
+            qs.append({"fn": "findall_by_attr", "name": rng.choice(["x", "y", "label", "zz"]), "value": rng.choice(VALUES + [None]),
                        "maxlevel": m, "mincount": rng.choice([None, 0, 1, 2]), "maxcount": rng.choice([None, 0, 1, 2, 9])})
         else:
-            qs.append({"fn": "find_by_attr", "name": rng.choice(["x", "y", "label", "zz"]), "value": rng.choice([0, 1, 2, None, None]),
+            qs.append({"fn": "find_by_attr", "name": rng.choice(["x", "y", "label", "zz"]), "value": rng.choice(VALUES + [None]),
                        "maxlevel": m})
     return qs
 
@@ -60,12 +65,19 @@ def _case(rng, t):
     for l in labs:
         for name in ("x", "y"):
             if rng.random() < 0.6:
-                attrs.append([l, name, rng.choice([0, 1, 2, None])])
+                attrs.append([l, name, rng.choice(VALUES)])
     # every PNode has a `label` attribute: mirror it in the table
     attrs += [[l, "label", l] for l in labs]
     start = rng.choice(labs)
-    return {"fam": "search", "tree": t, "start": start, "attrs": attrs,
-            "queries": _queries(rng, t, start, attrs, 8), "module": rng.choice(["search", "cachedsearch"])}
+    c = {"fam": "search", "tree": t, "start": start, "attrs": attrs,
+         "queries": _queries(rng, t, start, attrs, 8), "module": rng.choice(["search", "cachedsearch"])}
+    if rng.random() < 0.5:
+        # the same calls (same predicate objects, equal values) were already made on an earlier state of the tree:
+        # other x/y values, one more node below the start node
+        sub = gen.tree_labels(_sub(t, start))
+        c["warm"] = {"under": rng.choice(sub), "xval": rng.choice([0, 1, 2]),
+                     "attrs": [[l, name, rng.choice(VALUES)] for l in labs for name in ("x", "y") if rng.random() < 0.5]}
+    return c
 
 
 def generate(tier, rng):
